@@ -636,7 +636,15 @@ def dsLive (name : Str) : Book → List SheetEnt → List SheetEnt → List Shee
 names, calcChain and the active-sheet fix-up are outside the model) -/
 def deleteSheet (b : Book) (name : Str) : Out Book :=
   if b.sheetCount == 1 || !(b.sheets.any fun s => eqFold s.name name) then .ok b
+  -- "a workbook must contain at least one visible worksheet": the model has no hidden sheets,
+  -- so the guard asks for another sheet
+  else if !(b.sheets.any fun s => !eqFold s.name name) then .ok b
   else dsLive name b [] b.sheets []
+
+/-- sheet.go `copySheet`, relationship part of the copy: the current relationships of the source
+without the drawing and table relationships (which are not copied) -/
+def copyRels (src : List Rel) : List Rel :=
+  src.filter fun r => r.type != sl Facts.C05.relDrawing && r.type != sl Facts.C05.relTable
 
 /-- the NewFile template, from the regenerated template facts -/
 def initBook : Book :=
@@ -646,6 +654,58 @@ def initBook : Book :=
     sheets := Facts.C05.tplSheets.map fun (n, i, r) => ⟨sl n, i, sl r⟩,
     wsParts := (Facts.C05.tplParts.filter fun p => p.startsWith "xl/worksheets/").map sl,
     sheetCount := 1 }
+
+/-! ### calcChain (calcchain.go `deleteCalcChain`) -/
+
+structure CalcEnt where
+  r : Str
+  i : Int
+deriving DecidableEq, Repr
+
+/-- the filter of `deleteCalcChain(index, cell)`: entries of sheet `index` at `cell`, every entry
+of sheet `index` when `cell` is empty, and entries without sheet id at `cell` are dropped -/
+def deleteCalcChain (cc : List CalcEnt) (index : Int) (cell : Str) : List CalcEnt :=
+  cc.filter fun c => !((c.i == index && c.r == cell) || (c.i == index && cell == []) || (c.i == 0 && c.r == cell))
+
+/-! ### shared strings (cell.go `setSharedString`, tail of `SetCellRichText`) -/
+
+inductive SI where
+  | plain (s : Str)
+  /-- a rich string item, abstracted by a key that decides `reflect.DeepEqual` -/
+  | rich (k : Str)
+deriving DecidableEq, Repr
+
+structure Sst where
+  items : List SI
+  /-- the `count` / `uniqueCount` attributes as read from the file: arbitrary -/
+  count : Int
+  unique : Int
+  /-- `f.sharedStringsMap`: plain text ↦ index -/
+  map : List (Str × Nat)
+deriving Repr
+
+/-- `setSharedString` after `trimCellValue`: reuse the mapped index, else append and number the
+new item by the length of the list (`sst.Count = len(sst.SI)`) -/
+def setSharedString (t : Sst) (s : Str) : Sst × Nat :=
+  match t.map.find? (·.1 == s) with
+  | some e => (t, e.2)
+  | none =>
+    let items := t.items ++ [SI.plain s]
+    ({ items := items, count := items.length, unique := items.length, map := t.map ++ [(s, items.length - 1)] },
+      items.length - 1)
+
+def idxOfSI (x : SI) : List SI → Nat → Option Nat
+  | [], _ => none
+  | y :: ys, k => if y == x then some k else idxOfSI x ys (k + 1)
+
+/-- tail of `SetCellRichText`: an equal item is reused, otherwise the item is appended, both
+counters are incremented and the cell gets `len(sst.SI)-1` -/
+def setRichText (t : Sst) (k : Str) : Sst × Nat :=
+  match idxOfSI (.rich k) t.items 0 with
+  | some i => (t, i)
+  | none =>
+    ({ t with items := t.items ++ [SI.rich k], count := t.count + 1, unique := t.unique + 1 },
+      (t.items ++ [SI.rich k]).length - 1)
 
 /-! ### save-time trimming (sheet.go `trimRow` / `trimCell`) -/
 
@@ -697,6 +757,28 @@ cell carrying its row's number -/
 def rowsOk (rows : List Row) : Prop :=
   (rows.map (·.r)).Pairwise (· < ·) ∧
   ∀ row ∈ rows, (row.cells.map (·.col)).Pairwise (· < ·) ∧ ∀ c ∈ row.cells, c.row = row.r
+
+/-- the worksheet part of sheet id `k` as NewSheet names it -/
+def sheetPath (k : Int) : Str := worksheetPath (sheetPartAbs k)
+
+def wsPartPrefix : Str := sl Facts.C05.newSheetPartPrefix
+
+/-- workbook sheets ↔ worksheet relationships ↔ worksheet parts ↔ worksheet Overrides, for a
+workbook numbered the way the library numbers it (part number = sheet id) -/
+structure BookOk (b : Book) : Prop where
+  rels : relsOk b.wbRels
+  ct : ctOk b.ct
+  names : (b.sheets.map fun s => lower s.name).Nodup
+  ids : (b.sheets.map (·.sheetId)).Nodup
+  idrange : ∀ s ∈ b.sheets, 1 ≤ s.sheetId ∧ s.sheetId < 9223372036854775807
+  rids : (b.sheets.map (·.rid)).Nodup
+  sheetRel : ∀ s ∈ b.sheets, ∃ r ∈ b.wbRels, r.id = s.rid ∧ r.type = relWorksheet ∧
+      worksheetPath r.target = sheetPath s.sheetId
+  relSheet : ∀ r ∈ b.wbRels, r.type = relWorksheet → ∃ s ∈ b.sheets, s.rid = r.id
+  parts : ∀ p, p ∈ b.wsParts ↔ ∃ s ∈ b.sheets, p = sheetPath s.sheetId
+  ovrSheet : ∀ o ∈ b.ct.overrides, wsPartPrefix.isPrefixOf o.1 = true →
+      ∃ s ∈ b.sheets, o.1 = sheetPartAbs s.sheetId
+  sheetOvr : ∀ s ∈ b.sheets, (sheetPartAbs s.sheetId, ctWorksheet) ∈ b.ct.overrides
 
 /-- the dense in-memory grid: slot `i` holds row `i+1`, slot `j` of it column `j+1` -/
 def denseFrom (k : Nat) : List Row → Prop
